@@ -66,6 +66,14 @@ def run(tier, seed):
         items.append(('optcase:%d|O0' % sd, src, ['-O0']))
         for v in (['-O3'], ['-O0', '-fsimplify-else-conditions', '-fshortcircuit-fallthroughs'], ['-O1']):
             items.append(('optcase:%d|%s' % (sd, ' '.join(v)), src, v))
+    # action-dense loops under the short-circuit pass and its thresholds (declining as well as accepting the merge)
+    for i in range(10 if quick else 60):
+        sd = rng.randrange(1 << 30)
+        src = genprog.gen_actionloop_program(sd)[1]
+        items.append(('actloop:%d|O0' % sd, src, ['-O0']))
+        for v in (['-O3'], ['-O3', '--max-shortcircuit-fallthrough', '0'], ['-O3', '--max-shortcircuit-action-penalty', '100'],
+                  ['-O3', '--max-shortcircuit-action-penalty', '0', '--max-shortcircuit-fallthrough', '100'], ['-O0', '-fshortcircuit-fallthroughs']):
+            items.append(('actloop:%d|%s' % (sd, ' '.join(v)), src, v))
     progs = runner.compile_programs(items, want=('machine', 'codegen'))
     by_src = collections.OrderedDict()
     for p in progs:
